@@ -5,6 +5,7 @@ ALL_KINDS = ['rr', 'rr', 'stream', 'stream', 'channel', 'channel', 'fnf', 'push'
 FAMILIES = {
     'C01': [
         {'family': 'tlc', 'knobs': {}, 'quick': 320, 'thorough': 3200, 'first': 500000},
+        {'family': 'tlccover', 'knobs': {}, 'quick': 0, 'thorough': 0, 'first': 700000},
         {'family': 'core', 'knobs': {}, 'quick': 350, 'thorough': 5000},
         {'family': 'core', 'knobs': {'frag': 64, 'max_inter': 4, 'min_inter': 2, 'p_cancel': 0.0, 'p_error': 0.02}, 'quick': 150,
          'thorough': 3000, 'first': 100000},
@@ -18,9 +19,13 @@ FAMILIES = {
     'C06': [
         {'family': 'core', 'knobs': {'kinds': ['stream', 'channel'], 'sources': ['generator', 'async_generator'], 'p_cancel': 0.03,
                                      'p_error': 0.0}, 'quick': 400, 'thorough': 6000},
+        # observable-backed publishers (plain observables and back-pressure factories behind the Rx / ReactiveX handler adapters)
+        # driven by a core-API requester whose grants pile up or arrive while a batch is being produced
+        {'family': 'adapters_mixed', 'knobs': {}, 'quick': 300, 'thorough': 5000, 'first': 200000},
     ],
     'C07': [
         {'family': 'tlc', 'knobs': {}, 'quick': 320, 'thorough': 3200, 'first': 500000},
+        {'family': 'tlccover', 'knobs': {}, 'quick': 0, 'thorough': 0, 'first': 700000},
         {'family': 'core', 'knobs': {'p_cancel': 0.15, 'p_error': 0.15}, 'quick': 400, 'thorough': 6000},
         {'family': 'cut', 'knobs': {}, 'quick': 300, 'thorough': 5000, 'first': 100000},
     ],
@@ -30,6 +35,7 @@ FAMILIES = {
     ],
     'C08': [
         {'family': 'tlc', 'knobs': {}, 'quick': 320, 'thorough': 3200, 'first': 500000},
+        {'family': 'tlccover', 'knobs': {}, 'quick': 0, 'thorough': 0, 'first': 700000},
         {'family': 'core', 'knobs': {}, 'quick': 300, 'thorough': 5000},
         {'family': 'core', 'knobs': {'late_actions': True, 'p_cancel': 0.2}, 'quick': 150, 'thorough': 2500, 'first': 100000},
         {'family': 'core', 'knobs': {'late_actions': True, 'p_cancel': 0.3, 'p_auto_request': 0.8, 'p_cancel_race': 0.8,
@@ -37,8 +43,11 @@ FAMILIES = {
     ],
     'C09': [
         {'family': 'tlc', 'knobs': {}, 'quick': 320, 'thorough': 3200, 'first': 500000},
+        {'family': 'tlccover', 'knobs': {}, 'quick': 0, 'thorough': 0, 'first': 700000},
         {'family': 'core', 'knobs': {'p_cancel': 0.35, 'kinds': ['rr', 'stream', 'stream', 'channel', 'channel']}, 'quick': 400,
          'thorough': 6000},
+        # cancelling through the Rx front ends (disposal at every moment, incl. the loop turn of subscribe())
+        {'family': 'adapters', 'knobs': {'p_dispose': 0.6}, 'quick': 200, 'thorough': 3000, 'first': 300000},
     ],
     'C11': [
         {'family': 'cut', 'knobs': {}, 'quick': 500, 'thorough': 8000},
@@ -64,9 +73,11 @@ FAMILIES = {
     'C20': [
         {'family': 'adapters', 'knobs': {'version': 'reactivex'}, 'quick': 300, 'thorough': 5000},
         {'family': 'adapters', 'knobs': {'version': 'rx'}, 'quick': 300, 'thorough': 5000, 'first': 100000},
+        {'family': 'adapters_mixed', 'knobs': {}, 'quick': 300, 'thorough': 5000, 'first': 200000},
     ],
     'C10': [
         {'family': 'tlc', 'knobs': {}, 'quick': 320, 'thorough': 3200, 'first': 500000},
+        {'family': 'tlccover', 'knobs': {}, 'quick': 0, 'thorough': 0, 'first': 700000},
         {'family': 'core', 'knobs': {'p_cancel': 0.15, 'p_error': 0.15}, 'quick': 400, 'thorough': 6000},
     ],
 }
